@@ -31,6 +31,25 @@
        every run of the model is the projection of an overlay run).  On these four, (iii) holds BY CONSTRUCTION of the
        overlay's guard - what it encodes is the contract of the Blocker token proved for the real Park in C02
        (C09_park_canceled_only_if_cancelled below) - and (i) says that the delivery is enabled whenever the bit is set.
+   PREMISE of the theorems that say that a cancelled coroutine DIES at a cancellation point: in every model `unwinding /
+   panicking` is a property of the TASK, whereas CancelImpl::check_cancel asks std::thread::panicking(), a counter of the
+   OS thread (observation O2).  While another coroutine is suspended inside its unwinding on the same worker (the
+   cancelled owner of a select! waiting in Cqueue::finish, a scope owner in Drop for Scope, Park::drop waiting for the
+   kernel half) the real check_cancel does NOT raise the cancel panic.  So these theorems hold for the code under the
+   premise "no other coroutine is suspended inside an unwinding on the same OS thread":
+     C09_park_cancelled_raises_panic              (the step UCc -> UDead of ParkModel is check_cancel's panic)
+     C09_select_left_all_gone                     (CqueueModel: a cancelled select coroutine ends at its next point)
+     C09_scope_cancelled_owner_waits_for_children (ScopeModel: CPoint / the children's cancellation points)
+     C09_join_* and C09_cancel_unwind_needs_cancel  are about a body that HAS unwound: unaffected; the missing half
+                                                  "a cancelled body does unwind" is the premise again
+     C09_cancel_unwind_never_poisons, C09_cancel_unwinding_has_the_bit, C09_guard_drop_always_releases,
+     C09_ended_task_holds_no_lock                 (PoisonModel: `panicking` per task; Rt/PoisonTls.v is the TLS-faithful variant)
+   and, in the other C09 files, for the transitions into the Canceled branches that end in trigger_cancel_panic only in
+   so far as they are reached through Park's check_cancel (the sync primitives use ignore_cancel Blockers and call
+   trigger_cancel_panic themselves: unaffected).  The (i) stop theorems (nobody stays SUSPENDED) and the (iii) theorems
+   (no spurious cancel) do not depend on the premise.  Without the premise the property is violated on the real code:
+   known finding F33e (a cancelled select! whose arms absorb the Canceled result never finishes; scenario entry 2 of
+   props/C09.json, notes/c09_known_findings_proposal.json).
    Not modelled / partial (see props/C09.json): `sleep` (same register-then-re-check shape as Park::subscribe, pinned
    statically, oracle in the scenario); drop-exactly-once of stack values is Rust unwinding (trusted; drop counters in
    the scenario); the I/O leg: (iii) is proved, (i) is refuted on IoModel for the unrestricted interleaving
@@ -86,6 +105,7 @@ Theorem C09_park_cancelled_takes_shortcut :
 Proof. exact park_cancelled_takes_shortcut. Qed.
 Print Assumptions C09_park_cancelled_takes_shortcut.
 
+(* PREMISE (see the header): no other coroutine is suspended inside an unwinding on the same OS thread *)
 Theorem C09_park_cancelled_raises_panic :
   forall s s', up s = UCc -> canceled s = true -> stepF s AU = Some s' -> up s' = UDead.
 Proof. exact park_cancelled_raises_panic. Qed.
@@ -205,7 +225,10 @@ Proof. exact owner_cancel_unwind_needs_cancel. Qed.
 Print Assumptions C09_select_owner_cancel_unwind_needs_cancel.
 
 (* (ii) when select! / cqueue::scope unwinds (cancelled owner included) nobody is inside the cqueue any more and every
-   event was consumed exactly once; the final drain and join run with the cancel disabled (F9) *)
+   event was consumed exactly once; the final drain and join run with the cancel disabled (F9).
+   PREMISE (see the header): the model's select coroutines end at their next cancellation point once cancelled; on the real
+   code that needs "no other coroutine suspended inside an unwinding on the same thread" - the owner itself is such a
+   coroutine while it waits in Cqueue::finish: known finding F33e *)
 Theorem C09_select_left_all_gone :
   forall s, Reach current s -> oleft s = true ->
     all_gone s /\ evq s = [] /\
@@ -222,7 +245,8 @@ End SELECT.
 
 Module SCOPE.
 Import MayV.Rt.ScopeModel MayV.Rt.ScopeSafe.
-(* a cancelled scope owner does not leave the scope while a child runs (F2', C14 restated) *)
+(* a cancelled scope owner does not leave the scope while a child runs (F2', C14 restated).  PREMISE as above for the
+   children's own cancellation (they are not cancelled by the scope; only an explicit cancel of a child is concerned) *)
 Theorem C09_scope_cancelled_owner_waits_for_children :
   forall s, Reach current s -> forall c, scope_left s c -> done s c.
 Proof. exact scope_not_left_early. Qed.
@@ -266,7 +290,8 @@ End IO.
 Module POISON.
 Import MayV.Rt.PoisonModel MayV.Rt.PoisonThm.
 
-(* a guard dropped while the unwinding in progress is a cancellation leaves the poison flag alone (code as it is: bce9086) *)
+(* a guard dropped while the unwinding in progress is a cancellation leaves the poison flag alone (code as it is: bce9086).
+   PoisonModel: `panicking` is per task (PREMISE of the header; the per-thread counter is Rt/PoisonTls.v, findings F33a-c) *)
 Theorem C09_cancel_unwind_never_poisons :
   forall isco ismutex s t g, Reach isco ismutex true s -> cause (T s t) = Some MCancel -> poisons isco true s t g = false.
 Proof. exact now_cancel_unwind_never_poisons. Qed.
